@@ -46,6 +46,11 @@ type VdrSpec struct {
 	// the pipestance directory is reached through a symbolic link, and stages
 	// report some of their files by their canonical (fully resolved) path
 	LinkedRoot bool `json:"linked_root"`
+	// a job that takes pipestance files as arguments (the FailAt-th such launch)
+	// fails once in the given way (errors | assert | exit); the other jobs in
+	// flight finish before mrp looks again; mrp is restarted (retry)
+	FailConsumer string `json:"fail_consumer,omitempty"`
+	FailAt       int    `json:"fail_at,omitempty"`
 }
 
 // With a linked root: the canonical spelling of the pipestance directory and
@@ -143,6 +148,8 @@ type vdrRun struct {
 	stageOfNode map[string]*syntax.Stage
 	faultSet    bool
 	retried     bool
+	faultKey    string
+	nFileLaunch int
 }
 
 type vdrSnapshot struct {
@@ -429,6 +436,18 @@ func (v *vdrRun) outsHook(job *TAJob, outs map[string]interface{}) {
 		}
 		return
 	}
+	if strings.HasPrefix(job.StageName, "FLAG") {
+		// the run-time flag of a `disabled` modifier: mostly false (the call runs)
+		if _, ok := outs["o0"]; ok {
+			outs["o0"] = hash64("vdr-flag", job.Key)%4 == 0
+			if outs["o0"].(bool) {
+				v.hist("shape-sub-pipeline-disabled-at-run-time")
+			} else {
+				v.hist("shape-sub-pipeline-enabled-behind-disabled-modifier")
+			}
+		}
+		return
+	}
 	write := func(p, content string) bool {
 		if err := os.MkdirAll(path.Dir(p), 0o755); err != nil {
 			return false
@@ -551,6 +570,7 @@ func (v *vdrRun) outsHook(job *TAJob, outs map[string]interface{}) {
 			outs[k] = canon(outs[k])
 		}
 	}
+	v.escapeNames(job, outs)
 	// unreferenced material: a directory tree under files/ and files in tmp/
 	rng := rand.New(rand.NewSource(int64(hash64("vdr-extra", job.Key))))
 	if rng.Intn(2) == 0 && !v.spec.NoExtra {
@@ -611,6 +631,18 @@ func (v *vdrRun) launchHook(job *TAJob) {
 	}
 	if len(rels) > 0 {
 		v.hist("launch-with-file-args")
+		if v.r.Launches[job.Key] > 1 {
+			v.hist("relaunch-with-file-args")
+		}
+		if v.spec.FailConsumer != "" && !v.faultSet {
+			if v.nFileLaunch == v.spec.FailAt {
+				v.faultSet = true
+				v.faultKey = job.Key
+				v.r.Opts.Faults = append(v.r.Opts.Faults, &Fault{JobKey: job.Key, Kind: v.spec.FailConsumer})
+				v.hist("consumer-failure-injected-" + v.spec.FailConsumer + "-" + job.ShellName)
+			}
+			v.nFileLaunch++
+		}
 	}
 	v.launchArg[job.Key] = rels
 }
@@ -789,6 +821,13 @@ func (v *vdrRun) loop() {
 				r.startJob(job)
 			} else {
 				r.finishJob(job)
+				if v.faultKey != "" && job.Key == v.faultKey && v.spec.FailConsumer != "" && r.Rng.Intn(3) != 0 {
+					// the other jobs in flight finish before mrp reads the journal again
+					for len(r.Pending) > 0 {
+						r.finishJob(r.Pending[0])
+					}
+					v.hist("others-finish-with-the-failure")
+				}
 			}
 			idle = 0
 			continue
@@ -816,7 +855,7 @@ func (v *vdrRun) loop() {
 		}
 		done, progress := r.stepOnce()
 		if done {
-			if r.Final == "failed" && v.spec.FailChunk && v.faultSet && !v.retried {
+			if r.Final == "failed" && (v.spec.FailChunk || v.spec.FailConsumer != "") && v.faultSet && !v.retried {
 				// the operator restarts mrp; the failed chunk is reset and retried
 				v.retried = true
 				r.killPending(0)
@@ -826,12 +865,30 @@ func (v *vdrRun) loop() {
 				time.Sleep(3 * time.Millisecond)
 				r.ps.VerifStorageBarrier()
 				v.observe(false)
+				if v.spec.FailConsumer != "" {
+					// a kill pass over every node while the failed consumer waits for its
+					// retry (any completion of a neighbour triggers such passes): the model
+					// replays it from the real bookkeeping, with the failed node NOT done
+					v.snapshot(false)
+					preFail := v.snapshot(true)
+					v.collectPreNames(preFail)
+					r.ps.VDRKill()
+					r.ps.VerifStorageBarrier()
+					v.checkOutside("C14:outside-touched", "by volatile data removal at failure time")
+					postFail := v.snapshot(true)
+					v.modelChecksOn(preFail, postFail, "kill pass while a failed consumer awaits its retry", false)
+					v.observe(false)
+				}
 				if err := r.Restart(); err != nil {
 					r.Final = "error:" + err.Error()
 					return
 				}
 				v.observe(true)
-				v.hist("restart-after-chunk-failure")
+				if v.spec.FailConsumer != "" {
+					v.hist("restart-after-consumer-failure")
+				} else {
+					v.hist("restart-after-chunk-failure")
+				}
 				idle = 0
 				continue
 			}
